@@ -691,6 +691,20 @@ fn est_roundtrip(req: &J) -> J {
         Ok(p) => p,
         Err(e) => return json!({"parse_error": e.to_string()}),
     };
+    if req["format"].as_str() == Some("PST") {
+        let pst = match p.to_pst() {
+            Ok(x) => x,
+            Err(e) => return json!({"to_pst_error": e.to_string()}),
+        };
+        return match cedar_policy::Policy::from_pst(pst.clone()) {
+            Ok(q) => {
+                // ids may differ: compare after giving the rebuilt policy the original id
+                let q = q.new_id(id);
+                json!({"equal": p == q, "back": q.to_string()})
+            }
+            Err(e) => json!({"equal": false, "back": format!("error: {e}")}),
+        };
+    }
     let j = match p.to_json() {
         Ok(j) => j,
         Err(e) => return json!({"to_json_error": e.to_string()}),
